@@ -38,11 +38,18 @@ using namespace soplex; using namespace vph;
 #endif
 #define HAS(i, j) ((MASK >> ((i) * NC + (j))) & 1u)
 
+// arbitrary m*2^k, m in -MMAX..MMAX, k in -KMAX..KMAX.  MMAX == 1 (quick tier): 0 or +-2^k built from the constants +-1.0, so that
+// the mantissa is a constant for the solver and the floating-point products below need no multiplier reasoning.
 static double arb()
 {
    int m = vp_int_in(-MMAX, MMAX);
    int k = vp_int_in(-KMAX, KMAX);
+#if MMAX == 1
+   double one = (m < 0) ? -1.0 : 1.0;
+   return (m == 0) ? 0.0 : ldexp(one, k);
+#else
    return ldexp((double)m, k);
+#endif
 }
 // real minimization LP, real scaler, scaled by the real applyScaling
 static void scaled_min_lp(LP& lp, Dense<NR, NC>& d, Sc& sc, int* ce, int* re)
